@@ -39,8 +39,8 @@ SPEC = dict(
                  'g++ 12 ASan/UBSan/LSan and valgrind memcheck report what they claim to report'],
     legs=[
         Leg('regress', 'h_index', 'asan', opts={'mode': 'regress'}, quick=1, thorough=1, workers=1, leaks=True, min_cases=1),
-        Leg('index', 'h_index', 'asan', opts={'mode': 'index', 'ops': 80}, quick=4800, thorough=240000, workers=16, leaks=True, stall_wall=600.0),
-        Leg('memcheck', 'h_index', 'plain', opts={'mode': 'index', 'ops': 80}, quick=48, thorough=1600, workers=16, valgrind=True),
+        Leg('index', 'h_index', 'asan', opts={'mode': 'index', 'ops': 80}, quick=4800, thorough=120000, workers=16, leaks=True, stall_wall=600.0),
+        Leg('memcheck', 'h_index', 'plain', opts={'mode': 'index', 'ops': 80}, quick=48, thorough=960, workers=16, valgrind=True),
     ],
     min_stats={'regress': {'selftest_oracle_fired': 11, 'regress_F15': 1, 'regress_F32': 1, 'regress_structure': 1, 'regress_doc_examples': 1,
                            'regress_clone_own_subscription': 1, 'regress_clone_twice': 1, 'regress_refusals': 1, 'regress_supercede': 1, 'supercede_sets_with_index_update_as_newest_queued_mention': 30, 'regress_backlog_queue_depth': 20, 'settrees_bounced': 1},
